@@ -275,3 +275,93 @@ TRANSFORMS.update({
     "no-else-return": no_else_return,
     "comp-to-loop": comp_to_loop,
 })
+
+
+# ------------------------------------------------------------------------------------------ De Morgan
+class _DeMorgan(ast.NodeTransformer):
+    def visit_UnaryOp(self, node):
+        self.generic_visit(node)
+        if isinstance(node.op, ast.Not) and isinstance(node.operand, ast.BoolOp):
+            other = ast.And() if isinstance(node.operand.op, ast.Or) else ast.Or()
+            return ast.copy_location(ast.BoolOp(op=other, values=[ast.UnaryOp(op=ast.Not(), operand=v) for v in node.operand.values]), node)
+        return node
+
+    def visit_BoolOp(self, node):
+        self.generic_visit(node)
+        return node
+
+
+def demorgan(text: str) -> str:
+    return unparse(ast.fix_missing_locations(_DeMorgan().visit(ast.parse(text))))
+
+
+# ------------------------------------------------------------------------------------------ x is not None -> not (x is None), a != b -> not (a == b)
+class _NegatedCompare(ast.NodeTransformer):
+    MAP = {ast.IsNot: ast.Is, ast.NotIn: ast.In}
+
+    def visit_Compare(self, node):
+        self.generic_visit(node)
+        if len(node.ops) == 1 and type(node.ops[0]) in self.MAP:
+            inner = ast.Compare(left=node.left, ops=[self.MAP[type(node.ops[0])]()], comparators=node.comparators)
+            return ast.copy_location(ast.UnaryOp(op=ast.Not(), operand=inner), node)
+        return node
+
+
+def negated_compare(text: str) -> str:
+    return unparse(ast.fix_missing_locations(_NegatedCompare().visit(ast.parse(text))))
+
+
+# ------------------------------------------------------------------------------------------ x = a if c else b  <->  if c: x = a else: x = b
+class _TernaryToIf(ast.NodeTransformer):
+    def _block(self, stmts):
+        out = []
+        for s in stmts:
+            if isinstance(s, ast.Assign) and len(s.targets) == 1 and isinstance(s.targets[0], ast.Name) and isinstance(s.value, ast.IfExp):
+                t = s.targets[0]
+                out.append(ast.copy_location(ast.If(test=s.value.test, body=[ast.Assign(targets=[ast.Name(id=t.id, ctx=ast.Store())], value=s.value.body)],
+                                                    orelse=[ast.Assign(targets=[ast.Name(id=t.id, ctx=ast.Store())], value=s.value.orelse)]), s))
+            elif isinstance(s, ast.Return) and isinstance(s.value, ast.IfExp):
+                out.append(ast.copy_location(ast.If(test=s.value.test, body=[ast.Return(value=s.value.body)], orelse=[ast.Return(value=s.value.orelse)]), s))
+            else:
+                out.append(s)
+        return out
+
+    def generic_visit(self, node):
+        super().generic_visit(node)
+        for f in ("body", "orelse", "finalbody"):
+            v = getattr(node, f, None)
+            if isinstance(v, list) and v and isinstance(v[0], ast.stmt):
+                setattr(node, f, self._block(v))
+        return node
+
+    def visit_Lambda(self, node):
+        return node
+
+
+def ternary_to_if(text: str) -> str:
+    return unparse(ast.fix_missing_locations(_TernaryToIf().visit(ast.parse(text))))
+
+
+class _IfToTernary(ast.NodeTransformer):
+    def visit_If(self, node):
+        self.generic_visit(node)
+        if len(node.body) == 1 and len(node.orelse) == 1:
+            a, b = node.body[0], node.orelse[0]
+            if isinstance(a, ast.Assign) and isinstance(b, ast.Assign) and len(a.targets) == 1 and len(b.targets) == 1 and isinstance(a.targets[0], ast.Name) \
+                    and isinstance(b.targets[0], ast.Name) and a.targets[0].id == b.targets[0].id:
+                return ast.copy_location(ast.Assign(targets=[ast.Name(id=a.targets[0].id, ctx=ast.Store())], value=ast.IfExp(test=node.test, body=a.value, orelse=b.value)), node)
+            if isinstance(a, ast.Return) and isinstance(b, ast.Return) and a.value is not None and b.value is not None:
+                return ast.copy_location(ast.Return(value=ast.IfExp(test=node.test, body=a.value, orelse=b.value)), node)
+        return node
+
+
+def if_to_ternary(text: str) -> str:
+    return unparse(ast.fix_missing_locations(_IfToTernary().visit(ast.parse(text))))
+
+
+TRANSFORMS.update({
+    "demorgan": demorgan,
+    "negated-compare": negated_compare,
+    "ternary-to-if": ternary_to_if,
+    "if-to-ternary": if_to_ternary,
+})
